@@ -63,13 +63,19 @@ def gen_dir(rng, name, depth, counter, maxdepth):
             d.dirs.append(gen_dir(rng, f"{rng.choice(['sub', 'aaa', 'zzz'])}{counter[0]}", depth + 1, counter, maxdepth))
     for _ in range(rng.randint(0, 1)):
         counter[0] += 1
-        d.plain_dirs.append((f"assets{counter[0]}", [f"a{counter[0]}.css", f"b{counter[0]}.dat"]))
-    if d.plain_dirs and rng.random() < 0.6:
-        d.copy_subdir = [p[0] for p in d.plain_dirs]
-    elif d.plain_dirs and rng.random() < 0.5:
+        # copied verbatim: also hidden and backup files and nested directories
+        extra = rng.sample([".htaccess", "home~", "deep/.nojekyll", "deep/x.bin"], rng.randint(0, 2))
+        d.plain_dirs.append((f"assets{counter[0]}", [f"a{counter[0]}.css", f"b{counter[0]}.dat"] + extra))
+    if rng.random() < 0.35:
+        counter[0] += 1
+        d.plain_dirs.append(("shared_assets", [f"s{counter[0]}.css"]))  # the name the project-level copy_subdir uses, in several directories
+    own = [p[0] for p in d.plain_dirs if p[0] != "shared_assets"]
+    if own and rng.random() < 0.6:
+        d.copy_subdir = own if rng.random() < 0.7 else [p[0] for p in d.plain_dirs]
+    elif own and rng.random() < 0.5:
         titled = [p[0] for p in d.pages if p[1]]
         if titled:
-            d.page_copy[rng.choice(titled)] = d.plain_dirs[0][0]
+            d.page_copy[rng.choice(titled)] = own[0]
     # ordering
     cands = [p[0] for p in d.pages if p[1]] + [x.name for x in d.dirs if x.has_index and x.index_title]
     if cands and rng.random() < 0.5:
@@ -78,11 +84,18 @@ def gen_dir(rng, name, depth, counter, maxdepth):
         if rng.random() < 0.25:
             d.ordered.append(rng.choice(d.ordered))  # the same entry named twice: still one page
         d.ordered_style = rng.choice(["repeat", "continuation"])
+        if rng.random() < 0.15:
+            d.ordered.insert(rng.randint(0, len(d.ordered)), "index.md")  # the index names itself: not a sub-page of itself
     return d
+
+
+ENC = {"name": "utf-8"}
 
 
 def write_dir(d: D, path, rng, entity_links):
     os.makedirs(path, exist_ok=True)
+    if ENC["name"] != "utf-8":
+        entity_links = entity_links + " caf\u00e9 na\u00efve \u00fcber"
     up = "../" * d.depth
     if d.has_index:
         meta = []
@@ -111,13 +124,13 @@ def write_dir(d: D, path, rng, entity_links):
         if d.copy_subdir:
             body.append(f"[asset]({d.copy_subdir[0]}/{[p for p in d.plain_dirs if p[0] == d.copy_subdir[0]][0][1][0]})")
         body.append(entity_links)
-        open(os.path.join(path, "index.md"), "w").write("\n".join(meta) + "\n\n" + "\n\n".join(body) + "\n")
+        open(os.path.join(path, "index.md"), "w", encoding=ENC["name"]).write("\n".join(meta) + "\n\n" + "\n\n".join(body) + "\n")
     for fn, title in d.pages:
         meta = [f"title: {title}"] if title else ["author: someone"]
         if fn in d.page_copy:
             meta.append(f"copy_subdir: {d.page_copy[fn]}")
         body = [f"Page {fn} in {d.name}.", f"[index](index.html) [top]({up}index.html) [alias](|page|/index.html) [media](|media|/logo.png)", entity_links]
-        open(os.path.join(path, fn), "w").write("\n".join(meta) + "\n\n" + "\n\n".join(body) + "\n")
+        open(os.path.join(path, fn), "w", encoding=ENC["name"]).write("\n".join(meta) + "\n\n" + "\n\n".join(body) + "\n")
     for f in d.files:
         open(os.path.join(path, f), "wb").write(os.urandom(16) + f.encode())
     for h in d.hidden:
@@ -125,6 +138,7 @@ def write_dir(d: D, path, rng, entity_links):
     for name, fl in d.plain_dirs:
         os.makedirs(os.path.join(path, name), exist_ok=True)
         for f in fl:
+            os.makedirs(os.path.dirname(os.path.join(path, name, f)), exist_ok=True)
             open(os.path.join(path, name, f), "wb").write(f.encode() * 3)
     for sd in d.dirs:
         write_dir(sd, os.path.join(path, sd.name), rng, entity_links)
@@ -147,7 +161,7 @@ def expected(d: D, rel, proj_copy):
         entries[sd.name] = ("dir", sd, None)
     for name, fl in d.plain_dirs:
         entries[name] = ("plain", name, fl)
-    order = list(dict.fromkeys(d.ordered)) + [n for n in sorted(entries) if n not in d.ordered]
+    order = [n for n in dict.fromkeys(d.ordered) if n != "index.md"] + [n for n in sorted(entries) if n not in d.ordered]
     for fn, dn in d.page_copy.items():
         for name, fl in d.plain_dirs:
             if name == dn:
@@ -199,12 +213,22 @@ def case(seed):
         os.makedirs(os.path.join(base, "media"))
         open(os.path.join(base, "media", "logo.png"), "wb").write(b"PNG")
         links = "See [[pgmod]] and [[pgsub]] and [[pgmod:pgvar]]."
+        ENC["name"] = "latin-1" if rng.random() < 0.2 else "utf-8"  # the `encoding` option applies to page files as well
         write_dir(top, os.path.join(base, "pages"), rng, links)
         proj_copy = []
         opts = {"project": f"P{seed}", "src_dir": "./src", "output_dir": "./doc", "page_dir": "./pages", "media_dir": "./media", "preprocess": False, "parallel": 0,
                 "graph": False, "search": rng.random() < 0.5, "quiet": True}
+        if ENC["name"] != "utf-8":
+            opts["encoding"] = ENC["name"]
+
+        def has_shared(d):
+            return any(n == "shared_assets" for n, _ in d.plain_dirs) or any(has_shared(x) for x in d.dirs)
+
         plain_names = sorted({n for n, _ in top.plain_dirs})
-        if plain_names and rng.random() < 0.3:
+        if has_shared(top) and rng.random() < 0.6:
+            proj_copy = ["shared_assets"]
+            opts["copy_subdir"] = proj_copy
+        elif plain_names and rng.random() < 0.3:
             proj_copy = [plain_names[0]]
             opts["copy_subdir"] = proj_copy
         site.write_project_file(base, opts)
